@@ -38,7 +38,7 @@ CHECK_DEADLOCK FALSE
 
 FREQ_A = np.logspace(-0.3, 1.2, 12)
 FREQ_B = np.logspace(-0.5, 1.0, 9)
-RT_A = np.array([0.1, 0.5, 1.0])
+RT_A = np.array([0.06, 0.5, 1.0])      # shortest period < 10 dt: the refinement rule (min_dt_ratio) matters
 RT_B = np.array([0.08, 0.3, 0.9, 1.4])
 
 
@@ -103,6 +103,7 @@ def ops_for(kind):
     ops["reset_values_shorter"] = lambda o: o.reset_values(np.array(o.values)[: max(24, o.npts - 9)] * 1.1 + 0.05)
     ops["reset_values_list"] = lambda o: o.reset_values([float(x) * 0.8 + 0.02 for x in o.values])
     ops["add_constant"] = _call("add_constant", 0.37)
+    ops["add_constant_tiny"] = lambda o: o.add_constant(4e-9 * max(1.0, float(np.max(np.abs(o.values)))))
     ops["add_series"] = lambda o: o.add_series(0.1 * np.sin(np.arange(o.npts) / 1.7))
     ops["add_signal"] = _add_signal
     ops["butter_pass"] = _call("butter_pass", (0.9, 14.0), filter_order=2)
@@ -326,7 +327,8 @@ def random_sessions(rep, kind, recs, nsess, length, seed):
     ops = ops_for(kind)
     names = sorted(ops)
     for s in range(nsess):
-        o = make(kind, values=base_record(int(rng.integers(30, 80)), seed + s))
+        scale = [1.0, 1e-9, 1.0, 3e7][s % 4]          # ordinary, ambient-noise and raw-count magnitudes
+        o = make(kind, values=base_record(int(rng.integers(30, 80)), seed + s) * scale)
         events = []
         for _ in range(length):
             op = names[rng.integers(len(names))]
